@@ -254,6 +254,42 @@ impl futures::io::AsyncRead for ShortRead<'_> {
         std::task::Poll::Ready(Ok(n))
     }
 }
+impl tokio::io::AsyncRead for ShortRead<'_> {
+    fn poll_read(mut self: std::pin::Pin<&mut Self>, _cx: &mut std::task::Context<'_>, buf: &mut tokio::io::ReadBuf<'_>) -> std::task::Poll<std::io::Result<()>> {
+        let n = self.next_len(buf.remaining());
+        let p = self.pos;
+        buf.put_slice(&self.data[p..p + n]);
+        self.pos += n;
+        std::task::Poll::Ready(Ok(()))
+    }
+}
+impl ShortRead<'_> {
+    // the same irregular cut points, as a list of pieces (for stream-of-bytes interfaces)
+    pub fn pieces(data: &[u8], k: usize) -> Vec<Vec<u8>> {
+        let mut s = ShortRead { data, pos: 0, k };
+        let mut out = vec![];
+        while s.pos < data.len() {
+            let n = s.next_len(usize::MAX).max(1).min(data.len() - s.pos);
+            out.push(data[s.pos..s.pos + n].to_vec());
+            s.pos += n;
+        }
+        out
+    }
+}
+impl std::io::Seek for ShortRead<'_> {
+    fn seek(&mut self, to: std::io::SeekFrom) -> std::io::Result<u64> {
+        let np = match to {
+            std::io::SeekFrom::Start(p) => p as i64,
+            std::io::SeekFrom::End(d) => self.data.len() as i64 + d,
+            std::io::SeekFrom::Current(d) => self.pos as i64 + d,
+        };
+        if np < 0 {
+            return Err(std::io::Error::new(std::io::ErrorKind::InvalidInput, "seek before start"));
+        }
+        self.pos = (np as usize).min(self.data.len());
+        Ok(self.pos as u64)
+    }
+}
 fn minimal_matches(ms: &MDBMinimalShard, files: &[MDBFileInfo], cass: &[MDBCASInfo]) -> bool {
     if ms.num_files() != files.len() || ms.num_cas() != cass.len() {
         return false;
@@ -1222,6 +1258,22 @@ pub fn run_c18m(toks: &[&str]) -> Lines {
         }
         let mut nq = 0;
         for q in &ops {
+            if q[0] == "qdk" {
+                // a chunk of a keyed shard whose 64-bit prefix also occurs, for another chunk, in the unkeyed shard of the
+                // directory: the answer must be the hit the shard gives on its own
+                let qs = hashes(q[1]);
+                let ak = mk.chunk_hash_dedup_query(&qs).await.unwrap();
+                let nk = ak.as_ref().map(|x| x.0).unwrap_or(0);
+                out.push(("obs", format!("qdk{} keyed={}", nq, nk)));
+                if let Err(e) = truthful(&all, &zero, &qs, &ak) {
+                    why.push(format!("qdk{}-keyed-untruthful:{}", nq, e));
+                }
+                if nk == 0 {
+                    why.push(format!("qdk{}-chunk-of-a-keyed-shard-not-found-behind-a-prefix-collision-in-the-unkeyed-shard", nq));
+                }
+                nq += 1;
+                continue;
+            }
             if q[0] != "qd" {
                 continue;
             }
